@@ -8,6 +8,7 @@ package sim
 
 //@ func uniformParameters(params, n) returns (res)
 //@   locals res, i, j
+//@   loopsigs 7a63e881 c8db9c5f
 //@   ndmodel locations
 //@   requires n >= 0
 //@   assigns nothing
@@ -51,6 +52,7 @@ package sim
 
 //@ func (singleModel).Initialise(m) returns (err, model, inputs, states, warnings)
 //@   locals warnings, factory, model, desc, params, i, p, paramValue, msg, states, inputs, i, p, thisInput
+//@   loopsigs 7d73656c 38bbdfb4
 //@   ndmodel locations
 //@   safety C17
 //@   assigns nothing
@@ -86,6 +88,7 @@ package sim
 
 //@ func encodeResults(w, runLogs, results, description, splitOutputs)
 //@   locals overall, outputArray, outputMap, length, i, output, singleOutput, stateArray, stateMap, i, state, singleState, encoder, err
+//@   loopsigs 42956eb3 b9078ec3
 //@   ndmodel locations
 //@   safety C17
 //@   requires implies(results.Outputs != nil, results.Outputs.rank == 3 && results.Outputs.dim(0) == 1 && results.Outputs.dim(1) >= len(description.Outputs) && results.Outputs.dim(2) >= 0)
